@@ -7,7 +7,7 @@ package hx
 // the case asks for limits.
 //
 //   input : <id> <hex source> [cpu=N] [mem=N] [flags=N] [args=v,v,..] [mode=t|b|bt] [chunk=name]
-//   output: <id> <status> T:<ev>;<ev>.. R:<v>,<v>.. E:<hexmsg> O:<hex stdout> X:<ctx status>,<used cpu>,<used mem> A:<go heap bytes allocated, with stats=1>
+//   output: <id> <status> T:<ev>;<ev>.. R:<v>,<v>.. E:<hexmsg> O:<hex stdout> X:<ctx status>,<used cpu>,<used mem> A:<go heap bytes allocated, with stats=1> W:<wall-clock microseconds>
 //   status: ok | compile_error | error | killed | gopanic
 
 import (
@@ -19,6 +19,7 @@ import (
 	goruntime "runtime"
 	"strconv"
 	"strings"
+	"time"
 
 	"github.com/arnodel/golua/lib"
 	rt "github.com/arnodel/golua/runtime"
@@ -180,6 +181,7 @@ type LuaResult struct {
 	Out    string
 	Ctx    string
 	Alloc  uint64 // growth of MemStats.HeapSys while loading+running the chunk (Stats only)
+	Wall   int64  // wall-clock microseconds spent loading+running the chunk
 }
 
 func HexOrDash(b []byte) string {
@@ -217,6 +219,8 @@ func RunLuaCase(lc LuaCase) (res LuaResult) {
 		res.Out = HexOrDash(stdout.Bytes())
 	}()
 	t := r.MainThread()
+	w0 := time.Now()
+	defer func() { res.Wall = time.Since(w0).Microseconds() }()
 	if lc.Stats {
 		var ms0 goruntime.MemStats
 		goruntime.GC()
@@ -284,7 +288,7 @@ func FormatLuaResult(id string, res LuaResult) string {
 	if len(res.Trace) > 0 {
 		tr = strings.Join(res.Trace, ";")
 	}
-	return fmt.Sprintf("%s %s T:%s R:%s E:%s O:%s X:%s A:%d", id, res.Status, tr, res.Ret, res.Errmsg, res.Out, res.Ctx, res.Alloc)
+	return fmt.Sprintf("%s %s T:%s R:%s E:%s O:%s X:%s A:%d W:%d", id, res.Status, tr, res.Ret, res.Errmsg, res.Out, res.Ctx, res.Alloc, res.Wall)
 }
 
 // LuaEngine is the stdin/stdout loop of the "lua" engine.
